@@ -376,6 +376,11 @@ class DataMixin:
                             extra['sumcnt'][i] = extra['sumcnt'][i] - z3.If(z3.Select(h.dom, k), cnt_f(e, old), 0) + cnt_f(e, newseq)
                     h.map = z3.Store(h.map, k, newseq)
                 else:
+                    if h.vcnt is not None:
+                        # d[k] = v: the value that was under k (if any) is held by one key less, v by one more
+                        oldv, nv = z3.Select(h.map, k), lower(value, ex)
+                        vc1 = z3.If(z3.Select(h.dom, k), z3.Store(h.vcnt, oldv, z3.Select(h.vcnt, oldv) - 1), h.vcnt)
+                        h.vcnt = z3.Store(vc1, nv, z3.Select(vc1, nv) + 1)
                     h.map = z3.Store(h.map, k, lower(value, ex))
                 h.dom = z3.Store(h.dom, k, z3.BoolVal(True))
                 return
@@ -532,7 +537,12 @@ class DataMixin:
             return
         raise Undecided(f'del item on {obj!r}')
 
+    def vcnt_guard(self, h):
+        if getattr(h, 'vcnt', None) is not None:
+            raise Undecided('a dictionary whose values are counted (ghost vcnt) is modified by something else than setdefault')
+
     def symdict_remove(self, h, k):
+        self.vcnt_guard(h)
         extra = h.__dict__.setdefault('extra', {})
         if h.vkind == 'symlist':
             old = z3.Select(h.map, k)
@@ -815,10 +825,52 @@ class DataMixin:
         return VIterView('iter', lst)
 
     # --- concrete dict
+    def promote_dict(self, d, k):
+        """a dictionary known entry by entry that is now used with a key which is not a constant: from here on it is a symbolic dictionary with exactly
+        those entries (domain = the constant keys, values lowered; lists and objects among the values are kept as references).  Returns True if promoted."""
+        ex = self.ex
+        h = ex.heap[d.addr]
+        try:
+            self.pykey(k)
+            return False
+        except Undecided:
+            pass
+        if not isinstance(k, (VSym, VInt, VTuple)) or any(isinstance(kk, tuple) or (isinstance(kk, str) and kk.startswith('<object@')) for kk in h.items):
+            return False
+        dom, mp = EMPTYSET, z3.K(Val, Val.v_none)
+        for kk, vv in h.items.items():
+            kt = lower(VStr(kk) if isinstance(kk, str) else VInt(z3.IntVal(kk)), ex)
+            dom = z3.Store(dom, kt, z3.BoolVal(True))
+            mp = z3.Store(mp, kt, lower(vv, ex))
+        ex.heap[d.addr] = HSymDict(dom, mp)
+        return True
+
     def cm_HDict_get(self, d, k, default=NONE):
+        if self.promote_dict(d, k):
+            return self.cm_HSymDict_get(d, k, default)
         return self.ex.heap[d.addr].items.get(self.pykey(k), default)
 
+    def cm_HSymDict_setdefault(self, d, k, default=NONE):
+        ex = self.ex
+        h = ex.heap[d.addr]
+        kt = lower(k, ex)
+        if h.vkind == 'symlist':
+            raise Undecided('setdefault() on dict of lists')
+        pres = smt.simp(z3.Select(h.dom, kt))
+        if z3.is_true(pres) or (not z3.is_false(pres) and ex.branch(pres, 'setdefault:present')):
+            if h.vcnt is not None:
+                ex.assume(z3.Select(h.vcnt, z3.Select(h.map, kt)) >= 1)      # the value under a present key is held by at least that key
+            return VSym(z3.Select(h.map, kt), hint=h.vkind if isinstance(h.vkind, tuple) else None)
+        h.dom = z3.Store(h.dom, kt, z3.BoolVal(True))
+        dv = lower(default, ex)
+        h.map = z3.Store(h.map, kt, dv)
+        if h.vcnt is not None:
+            h.vcnt = z3.Store(h.vcnt, dv, z3.Select(h.vcnt, dv) + 1)
+        return default
+
     def cm_HDict_pop(self, d, k, *default):
+        if self.promote_dict(d, k):
+            return self.cm_HSymDict_pop(d, k, *default)
         h = self.ex.heap[d.addr]
         kk = self.pykey(k)
         if kk in h.items:
@@ -828,6 +880,8 @@ class DataMixin:
         raise PyRaise(self.mkexc('KeyError', str(kk)))
 
     def cm_HDict_setdefault(self, d, k, default=NONE):
+        if self.promote_dict(d, k):
+            return self.cm_HSymDict_setdefault(d, k, default)
         h = self.ex.heap[d.addr]
         return h.items.setdefault(self.pykey(k), default)
 
@@ -913,6 +967,7 @@ class DataMixin:
         """d.update(other): pointwise - keys of other win (T1)"""
         ex = self.ex
         h = ex.heap[d.addr]
+        self.vcnt_guard(h)
         if 'extra' in h.__dict__ and h.__dict__['extra']:
             raise Undecided('update of a symbolic dict with sum bookkeeping')
         if other is not None:
@@ -941,6 +996,7 @@ class DataMixin:
 
     def cm_HSymDict_clear(self, d):
         h = self.ex.heap[d.addr]
+        self.vcnt_guard(h)
         h.dom = EMPTYSET
         extra = h.__dict__.setdefault('extra', {})
         if 'sumlen' in extra:
